@@ -172,6 +172,62 @@ theorem skip_exposes : ¬ (applyOp Buf.empty (.skip 1)).Written := by
   have := h none (by simp [applyOp, Buf.skip, Buf.empty, Buf.pos, Buf.cap, bufMaxSize])
   cases this
 
+/-- **C17.push_exact**: `push` fails with `OutOfBuffer` exactly when the chunk is longer than the
+free space and changes nothing else; otherwise the chunk sits in front of the old content and the
+free space shrank by its length. -/
+theorem push_exact (b : Buf) (chunk : Bytes) :
+    (b.pos < chunk.length → b.push chunk = .err .OutOfBuffer) ∧
+    (chunk.length ≤ b.pos → ∃ b', b.push chunk = .ok b' ∧ b'.cells = chunk.map some ++ b.cells ∧
+      b'.bookmark = b.bookmark ∧ b'.pos = b.pos - chunk.length ∧ b'.len = b.len + chunk.length) := by
+  refine ⟨fun h => by simp only [Buf.push, h, if_true], fun h => ?_⟩
+  have hn : ¬ b.pos < chunk.length := by omega
+  refine ⟨{ b with cells := chunk.map some ++ b.cells }, by simp only [Buf.push, hn, if_false], rfl, rfl, ?_, ?_⟩
+  · simp only [Buf.pos, List.length_append, List.length_map] at *; omega
+  · simp only [Buf.len, List.length_append, List.length_map]; omega
+
+/-- **C17.bookmark_measures**: the bookmark arithmetic cannot underflow in the way the library uses
+it — set the bookmark `delta` behind the write position, push any chunks that fit, and
+`get_bookmark()` is `delta` plus the number of octets pushed since, never a panic. -/
+theorem bookmark_measures (b b1 : Buf) (delta : Nat) (chunks : List Bytes)
+    (h1 : b.setBookmark delta = .ok b1) (b2 : Buf)
+    (h2 : chunks.foldlM (fun (acc : Buf) c => acc.push c) b1 = .ok b2) (hb : b.cells.length ≤ Buf.cap) :
+    b2.getBookmark = .ok (delta + (chunks.map List.length).sum) := by
+  have hb1 : b1.bookmark = b1.pos + delta ∧ b1.cells.length ≤ Buf.cap := by
+    unfold Buf.setBookmark at h1
+    split at h1
+    · cases h1; exact ⟨rfl, hb⟩
+    · cases h1
+  clear h1
+  obtain ⟨hbm, hc⟩ := hb1
+  have H : ∀ (chunks : List Bytes) (acc : Buf) (n : Nat), acc.bookmark = acc.pos + delta + n →
+      acc.cells.length ≤ Buf.cap →
+      chunks.foldlM (fun (acc : Buf) c => acc.push c) acc = .ok b2 →
+      b2.getBookmark = .ok (delta + n + (chunks.map List.length).sum) := by
+    clear h2
+    intro chunks
+    induction chunks with
+    | nil =>
+      intro acc n ha _ h
+      simp only [List.foldlM_nil, pure] at h
+      cases h
+      simp only [Buf.getBookmark, usub, List.map_nil, List.sum_nil, Nat.add_zero]
+      have : b2.pos ≤ b2.bookmark := by omega
+      rw [if_pos this]
+      exact congrArg Outcome.ok (by omega)
+    | cons c cs ih =>
+      intro acc n ha hcap h
+      simp only [List.foldlM_cons] at h
+      obtain ⟨a1, hp, hrest⟩ := Outcome.bind_eq_ok h
+      by_cases hfit : acc.pos < c.length
+      · rw [(push_exact acc c).1 hfit] at hp; cases hp
+      · obtain ⟨b', hb', hcells, hbk, hpos, _⟩ := (push_exact acc c).2 (by omega)
+        rw [hb'] at hp; cases hp
+        have := ih a1 (n + c.length) (by rw [hbk, hpos, ha]; omega)
+          (by rw [hcells]; simp only [List.length_append, List.length_map, Buf.pos] at *; omega) hrest
+        rw [this]; simp only [List.map_cons, List.sum_cons]; congr 1; omega
+  have := H chunks b1 0 (by omega) hc h2
+  simpa using this
+
 /-- **C17.cap_side**: the capacity is below 65536, which the two-octet long form needs -/
 theorem cap_side : Buf.cap < 65536 := by decide
 
